@@ -383,7 +383,9 @@ Proof.
     apply use_spec_app; [apply use_spec_use_idents; exact He|].
     replace (upos_exprs elts) with (upos_exprs elts ++ []) by apply app_nil_r.
     apply use_spec_app; [apply IHe; [dsub Hd | exact He]|].
-    intros j o [H | [H | []]]; discriminate.
+    intros j o H. apply in_app_or in H. destruct H as [H | H].
+    + destruct typ; simpl in H; [destruct H | destruct H as [H | []]; discriminate].
+    + destruct H as [H | []]; discriminate.
   - (* EXSlice *) intros p elts IHe D e Hd He. simpl in *.
     replace (upos_exprs elts) with (upos_exprs elts ++ []) by apply app_nil_r.
     apply use_spec_app; [apply IHe; [dsub Hd | exact He]|].
@@ -391,7 +393,7 @@ Proof.
   - (* EXMap *) intros p elts IHe D e Hd He. simpl in *.
     replace (upos_exprs elts) with (upos_exprs elts ++ []) by apply app_nil_r.
     apply use_spec_app; [apply IHe; [dsub Hd | exact He]|].
-    intros j o [H | [H | []]]; discriminate.
+    intros j o [H | []]; discriminate.
   - (* ENil *) intros D e _ _. apply use_spec_nil.
   - (* ECons *) intros x IHx t IHt D e Hd He. simpl in *.
     apply use_spec_app; [apply IHx | apply IHt]; auto; dsub Hd.
@@ -683,6 +685,7 @@ Proof.
     cbn [app]. repeat (apply def_spec_cons; [nodef|]). apply IHb.
   - intros p typ elts IHe e. cbn [r_expr nfp_expr rg_expr].
     apply def_spec_app; [apply def_spec_use_idents|]. apply def_spec_app; [apply IHe|].
+    apply def_spec_app; [destruct typ; simpl; [apply def_spec_nil | apply def_spec_cons; [nodef | apply def_spec_nil]]|].
     repeat (apply def_spec_cons; [nodef|]). apply def_spec_nil.
   - intros p elts IHe e. cbn [r_expr nfp_expr rg_expr].
     apply def_spec_app; [apply IHe|]. repeat (apply def_spec_cons; [nodef|]). apply def_spec_nil.
@@ -888,97 +891,89 @@ Ltac nsub IH := eapply node_spec_incl; [apply IH | isolve].
 Ltac ncons := apply node_spec_cons; [simpl; repeat (rewrite in_app_iff); simpl; tauto|].
 Ltac btrue H := repeat (apply andb_prop in H; let H' := fresh "Ht" in destruct H as [H H']).
 
+Lemma node_spec_type_node typ : node_spec (map ipos typ) (type_node typ).
+Proof. destruct typ as [|i t]; [apply node_spec_nil|]. intros ev [<- | []]. simpl. auto. Qed.
+
 Lemma nodes_syntax :
-  (forall x, typed_expr x = true -> forall e, node_spec (nodes_expr x) (r_expr e x)) /\
-  (forall xs, typed_exprs xs = true -> forall e, node_spec (nodes_exprs xs) (r_exprs e xs)) /\
-  (forall s, typed_stmt s = true -> forall e, node_spec (nodes_stmt s) (snd (r_stmt e s))) /\
-  (forall ss, typed_stmts ss = true -> forall e, node_spec (nodes_stmts ss) (snd (r_stmts e ss))).
+  (forall x e, node_spec (nodes_expr x) (r_expr e x)) /\
+  (forall xs e, node_spec (nodes_exprs xs) (r_exprs e xs)) /\
+  (forall s e, node_spec (nodes_stmt s) (snd (r_stmt e s))) /\
+  (forall ss e, node_spec (nodes_stmts ss) (snd (r_stmts e ss))).
 Proof.
   apply syntax_mutind.
-  - intros p _ e. cbn [r_expr nodes_expr]. ncons. apply node_spec_nil.
-  - intros i _ e. cbn [r_expr nodes_expr]. apply node_spec_use_ident.
-  - intros p a IHa b IHb Ht e. cbn [typed_expr] in Ht. apply andb_prop in Ht. destruct Ht as [Ht1 Ht2].
-    cbn [r_expr nodes_expr].
-    apply node_spec_app; [nsub (IHa Ht1)|]. apply node_spec_app; [nsub (IHb Ht2)|]. ncons. apply node_spec_nil.
-  - intros p f IHf args IHa Ht e. cbn [typed_expr] in Ht. apply andb_prop in Ht. destruct Ht as [Ht1 Ht2].
-    cbn [r_expr nodes_expr].
-    apply node_spec_app; [nsub (IHf Ht1)|]. apply node_spec_app; [nsub (IHa Ht2)|]. ncons. apply node_spec_nil.
-  - intros p x sel _ e. cbn [r_expr nodes_expr]. destruct (lookup_env (iname x) e); [|apply node_spec_nil].
+  - intros p e. cbn [r_expr nodes_expr]. ncons. apply node_spec_nil.
+  - intros i e. cbn [r_expr nodes_expr]. apply node_spec_use_ident.
+  - intros p a IHa b IHb e. cbn [r_expr nodes_expr].
+    apply node_spec_app; [nsub IHa|]. apply node_spec_app; [nsub IHb|]. ncons. apply node_spec_nil.
+  - intros p f IHf args IHa e. cbn [r_expr nodes_expr].
+    apply node_spec_app; [nsub IHf|]. apply node_spec_app; [nsub IHa|]. ncons. apply node_spec_nil.
+  - intros p x sel e. cbn [r_expr nodes_expr]. destruct (lookup_env (iname x) e); [|apply node_spec_nil].
     ncons. ncons. ncons. apply node_spec_nil.
-  - intros p params ptyp rtyp bp body IHb Ht e. cbn [typed_expr] in Ht. cbn [r_expr nodes_expr].
+  - intros p params ptyp rtyp bp body IHb e. cbn [r_expr nodes_expr].
     apply node_spec_app; [eapply node_spec_incl; [apply node_spec_use_idents|]; intros z Hz; simpl; rewrite !map_app, !in_app_iff; tauto|].
     apply node_spec_app; [eapply node_spec_incl; [apply node_spec_use_idents|]; intros z Hz; simpl; rewrite !map_app, !in_app_iff; tauto|].
     apply node_spec_app; [eapply node_spec_incl; [apply node_spec_def_own|]; intros z Hz; simpl; rewrite !map_app, !in_app_iff; tauto|].
-    cbn [app]. ncons. ncons. nsub (IHb Ht).
-  - intros p typ elts IHe Ht e. cbn [typed_expr] in Ht. destruct typ as [|t0 tt]; [discriminate|].
-    cbn [r_expr nodes_expr first_pos].
+    cbn [app]. ncons. ncons. nsub IHb.
+  - intros p typ elts IHe e. cbn [r_expr nodes_expr].
     apply node_spec_app; [eapply node_spec_incl; [apply node_spec_use_idents|]; isolve|].
-    apply node_spec_app; [nsub (IHe Ht)|]. ncons. ncons. apply node_spec_nil.
-  - intros p elts IHe Ht e. cbn [typed_expr] in Ht. cbn [r_expr nodes_expr].
-    apply node_spec_app; [nsub (IHe Ht)|]. ncons. apply node_spec_nil.
-  - intros p elts IHe Ht e. discriminate.
-  - intros _ e. apply node_spec_nil.
-  - intros x IHx t IHt Ht e. cbn [typed_exprs] in Ht. apply andb_prop in Ht. destruct Ht as [Ht1 Ht2].
-    cbn [r_exprs nodes_exprs]. apply node_spec_app; [nsub (IHx Ht1) | nsub (IHt Ht2)].
-  - (* SVar *) intros names typ vals IHv Ht e. cbn [typed_stmt] in Ht. cbn [r_stmt snd nodes_stmt].
+    apply node_spec_app; [nsub IHe|].
+    apply node_spec_app; [eapply node_spec_incl; [apply node_spec_type_node|]; isolve|].
+    ncons. apply node_spec_nil.
+  - intros p elts IHe e. cbn [r_expr nodes_expr].
+    apply node_spec_app; [nsub IHe|]. ncons. apply node_spec_nil.
+  - intros p elts IHe e. cbn [r_expr nodes_expr].
+    apply node_spec_app; [nsub IHe|]. ncons. apply node_spec_nil.
+  - intros e. apply node_spec_nil.
+  - intros x IHx t IHt e. cbn [r_exprs nodes_exprs]. apply node_spec_app; [nsub IHx | nsub IHt].
+  - (* SVar *) intros names typ vals IHv e. cbn [r_stmt snd nodes_stmt].
     apply node_spec_app; [eapply node_spec_incl; [apply node_spec_use_idents|]; intros z Hz; rewrite !map_app, !in_app_iff; tauto|].
-    apply node_spec_app; [nsub (IHv Ht)|].
+    apply node_spec_app; [nsub IHv|].
     eapply node_spec_incl; [apply node_spec_def_names|]. intros z Hz; rewrite !map_app, !in_app_iff; tauto.
-  - (* SConst *) intros names vals IHv Ht e. cbn [typed_stmt] in Ht. cbn [r_stmt snd nodes_stmt].
-    apply node_spec_app; [nsub (IHv Ht)|].
+  - (* SConst *) intros names vals IHv e. cbn [r_stmt snd nodes_stmt].
+    apply node_spec_app; [nsub IHv|].
     eapply node_spec_incl; [apply node_spec_def_names|]. isolve.
-  - (* SType *) intros n under _ e. cbn [r_stmt snd nodes_stmt].
+  - (* SType *) intros n under e. cbn [r_stmt snd nodes_stmt].
     eapply node_spec_incl; [apply node_spec_use_ident|]. isolve.
-  - (* SDefine *) intros names vals IHv Ht e. cbn [typed_stmt] in Ht. cbn [r_stmt snd nodes_stmt].
-    apply node_spec_app; [nsub (IHv Ht)|].
+  - (* SDefine *) intros names vals IHv e. cbn [r_stmt snd nodes_stmt].
+    apply node_spec_app; [nsub IHv|].
     intros ev H. destruct (def_names_only_defs _ _ _ H) as [i [o ->]].
     apply def_names_in in H. destruct H as [H _]. apply new_names_in in H. destruct H as [H _].
     simpl. rewrite in_app_iff. left. apply in_map. exact H.
-  - intros lhs IHl rhs IHr Ht e. cbn [typed_stmt] in Ht. apply andb_prop in Ht. destruct Ht as [Ht1 Ht2].
-    cbn [r_stmt snd nodes_stmt]. apply node_spec_app; [nsub (IHl Ht1) | nsub (IHr Ht2)].
-  - intros x IHx Ht e. cbn [r_stmt snd]. apply (IHx Ht).
-  - intros vals IHv Ht e. cbn [r_stmt snd]. apply (IHv Ht).
-  - intros p body IHb Ht e. cbn [typed_stmt] in Ht. cbn [r_stmt snd nodes_stmt].
-    apply node_spec_app; [nsub (IHb Ht)|]. ncons. apply node_spec_nil.
-  - (* SIf *) intros p init IHi cond IHc bp thn IHt els IHe Ht e. cbn [typed_stmt] in Ht.
-    apply andb_prop in Ht. destruct Ht as [Ht Ht4]. apply andb_prop in Ht. destruct Ht as [Ht Ht3].
-    apply andb_prop in Ht. destruct Ht as [Ht1 Ht2].
-    cbn [r_stmt nodes_stmt].
-    pose proof (IHi Ht1 ([] :: e)) as Hi. destruct (r_stmts ([] :: e) init) as [e1 ev1]. cbn [snd app] in *.
-    apply node_spec_app; [nsub Hi|]. apply node_spec_app; [nsub (IHc Ht2)|].
-    ncons. apply node_spec_app; [nsub (IHt Ht3)|]. apply node_spec_app; [nsub (IHe Ht4)|].
+  - intros lhs IHl rhs IHr e. cbn [r_stmt snd nodes_stmt]. apply node_spec_app; [nsub IHl | nsub IHr].
+  - intros x IHx e. cbn [r_stmt snd]. apply IHx.
+  - intros vals IHv e. cbn [r_stmt snd]. apply IHv.
+  - intros p body IHb e. cbn [r_stmt snd nodes_stmt].
+    apply node_spec_app; [nsub IHb|]. ncons. apply node_spec_nil.
+  - (* SIf *) intros p init IHi cond IHc bp thn IHt els IHe e. cbn [r_stmt nodes_stmt].
+    pose proof (IHi ([] :: e)) as Hi. destruct (r_stmts ([] :: e) init) as [e1 ev1]. cbn [snd app] in *.
+    apply node_spec_app; [nsub Hi|]. apply node_spec_app; [nsub IHc|].
+    ncons. apply node_spec_app; [nsub IHt|]. apply node_spec_app; [nsub IHe|].
     ncons. apply node_spec_nil.
-  - (* SFor *) intros p init IHi cond IHc post IHp bp body IHb Ht e. cbn [typed_stmt] in Ht.
-    apply andb_prop in Ht. destruct Ht as [Ht Ht4]. apply andb_prop in Ht. destruct Ht as [Ht Ht3].
-    apply andb_prop in Ht. destruct Ht as [Ht1 Ht2].
-    cbn [r_stmt nodes_stmt].
-    pose proof (IHi Ht1 ([] :: e)) as Hi. destruct (r_stmts ([] :: e) init) as [e1 ev1]. cbn [snd app] in *.
-    ncons. apply node_spec_app; [nsub Hi|]. apply node_spec_app; [nsub (IHc Ht2)|].
-    ncons. apply node_spec_app; [nsub (IHb Ht4) | nsub (IHp Ht3)].
-  - (* SRange *) intros p names x IHx bp body IHb Ht e. cbn [typed_stmt] in Ht.
-    apply andb_prop in Ht. destruct Ht as [Ht1 Ht2].
-    cbn [r_stmt snd nodes_stmt].
-    apply node_spec_app; [nsub (IHx Ht1)|].
+  - (* SFor *) intros p init IHi cond IHc post IHp bp body IHb e. cbn [r_stmt nodes_stmt].
+    pose proof (IHi ([] :: e)) as Hi. destruct (r_stmts ([] :: e) init) as [e1 ev1]. cbn [snd app] in *.
+    ncons. apply node_spec_app; [nsub Hi|]. apply node_spec_app; [nsub IHc|].
+    ncons. apply node_spec_app; [nsub IHb | nsub IHp].
+  - (* SRange *) intros p names x IHx bp body IHb e. cbn [r_stmt snd nodes_stmt].
+    apply node_spec_app; [nsub IHx|].
     apply node_spec_app; [eapply node_spec_incl; [apply node_spec_def_names|]; isolve|].
-    cbn [app]. ncons. apply node_spec_app; [nsub (IHb Ht2)|]. ncons. apply node_spec_nil.
-  - intros _ e. apply node_spec_nil.
-  - intros s IHs t IHt Ht e. cbn [typed_stmts] in Ht. apply andb_prop in Ht. destruct Ht as [Ht1 Ht2].
-    cbn [r_stmts nodes_stmts].
-    pose proof (IHs Ht1 e) as Hs. destruct (r_stmt e s) as [e1 ev1].
-    pose proof (IHt Ht2 e1) as Ht'. destruct (r_stmts e1 t) as [e2 ev2]. cbn [snd] in *.
+    cbn [app]. ncons. apply node_spec_app; [nsub IHb|]. ncons. apply node_spec_nil.
+  - intros e. apply node_spec_nil.
+  - intros s IHs t IHt e. cbn [r_stmts nodes_stmts].
+    pose proof (IHs e) as Hs. destruct (r_stmt e s) as [e1 ev1].
+    pose proof (IHt e1) as Ht'. destruct (r_stmts e1 t) as [e2 ev2]. cbn [snd] in *.
     apply node_spec_app; [nsub Hs | nsub Ht'].
 Qed.
 
-Lemma nodes_decl_ok e d : typed_decl d = true -> node_spec (nodes_decl d) (r_decl e d).
+Lemma nodes_decl_ok e d : node_spec (nodes_decl d) (r_decl e d).
 Proof.
   destruct nodes_syntax as [_ [Hxs [_ Hss]]].
-  intros Ht. destruct d as [nm ppos pn | names typ vals | names vals | n under | fp n params ptyp results rtyp bp body];
-    cbn [r_decl nodes_decl typed_decl] in *.
+  destruct d as [nm ppos pn | names typ vals | names vals | n under | fp n params ptyp results rtyp bp body];
+    cbn [r_decl nodes_decl] in *.
   - eapply node_spec_incl; [apply node_spec_def_own|]. isolve.
   - apply node_spec_app; [eapply node_spec_incl; [apply node_spec_use_idents|]; intros z Hz; rewrite !map_app, !in_app_iff; tauto|].
-    apply node_spec_app; [nsub (Hxs _ Ht)|].
+    apply node_spec_app; [nsub Hxs|].
     eapply node_spec_incl; [apply node_spec_def_names|]. intros z Hz; rewrite !map_app, !in_app_iff; tauto.
-  - apply node_spec_app; [nsub (Hxs _ Ht)|]. eapply node_spec_incl; [apply node_spec_def_names|]. isolve.
+  - apply node_spec_app; [nsub Hxs|]. eapply node_spec_incl; [apply node_spec_def_names|]. isolve.
   - apply node_spec_app; [eapply node_spec_incl; [apply node_spec_use_ident|]; isolve|].
     eapply node_spec_incl; [apply node_spec_def_own|]. isolve.
   - apply node_spec_app; [eapply node_spec_incl; [apply node_spec_def_own|]; isolve|].
@@ -986,21 +981,20 @@ Proof.
     apply node_spec_app; [eapply node_spec_incl; [apply node_spec_use_idents|]; intros z Hz; simpl; rewrite !map_app, !in_app_iff; tauto|].
     apply node_spec_app; [eapply node_spec_incl; [apply node_spec_def_own|]; intros z Hz; simpl; rewrite !map_app, !in_app_iff; tauto|].
     apply node_spec_app; [eapply node_spec_incl; [apply node_spec_def_own|]; intros z Hz; simpl; rewrite !map_app, !in_app_iff; tauto|].
-    cbn [app]. ncons. nsub (Hss _ Ht).
+    cbn [app]. ncons. nsub Hss.
 Qed.
 
 (* C12: every node recorded in Defs / Uses / Types / Scopes is a node of the checked file *)
-Theorem recorded_nodes_in_files p : typed_prog p = true ->
-  forall ev, In ev (run p) -> ev_in (nodes_prog p) ev.
+Theorem recorded_nodes_in_files p : forall ev, In ev (run p) -> ev_in (nodes_prog p) ev.
 Proof.
-  intros Ht. unfold run, nodes_prog. apply node_spec_cons; [simpl; auto|].
-  unfold typed_prog in Ht. rewrite forallb_forall in Ht.
+  unfold run, nodes_prog. apply node_spec_cons; [simpl; auto|].
   assert (G : forall l, incl l p -> node_spec (file_pos :: flat_map nodes_decl p) (flat_map (r_decl (pkg_env p)) l)).
   { induction l as [|d l IH]; intros Hl; [apply node_spec_nil|].
     cbn [flat_map]. apply node_spec_app.
     - assert (Hd : In d p) by (apply Hl; simpl; auto).
-      eapply node_spec_incl; [apply nodes_decl_ok; apply Ht; exact Hd|].
+      eapply node_spec_incl; [apply nodes_decl_ok|].
       intros z Hz. right. apply in_flat_map. exists d. auto.
     - apply IH. intros z Hz. apply Hl. simpl. auto. }
   apply G. apply incl_refl.
 Qed.
+
